@@ -8,7 +8,7 @@ use crate::gen::{self, Profile};
 use crate::keys::{self, Alg};
 use crate::model::{self, b64e, Fmt};
 use crate::mon::c05::check_issued;
-use crate::pipeline::{self, Config};
+use crate::pipeline::{self, Config, Scenario};
 use crate::rng::Rng;
 use serde_json::{json, Value};
 
@@ -332,6 +332,38 @@ fn one_case(ctx: &Ctx, case: u64, l: &mut Local) {
             if ok {
                 l.count("reissue.byte-identical");
                 l.count(if deterministic_sig { "reissue.compared.whole-string" } else { "reissue.compared.disclosures+payload" });
+                // ... and "on every run" includes runs in which this thread issued something else in
+                // between: the same claims with every object's members in reverse order (equal as JSON
+                // values, different as text), then the original again
+                fn reversed(v: &Value) -> Value {
+                    match v {
+                        Value::Object(m) => Value::Object(m.iter().rev().map(|(k, x)| (k.clone(), reversed(x))).collect()),
+                        Value::Array(a) => Value::Array(a.iter().map(reversed).collect()),
+                        x => x.clone(),
+                    }
+                }
+                let mut other = Scenario { cfg: s.cfg.clone(), u: reversed(&s.u), strat: s.strat.clone(), explicit_alg: s.explicit_alg };
+                other.cfg.decoys = false;
+                fill_salts(&salts);
+                let _ = pipeline::issue_scenario(&other);
+                fill_salts(&salts);
+                let third = pipeline::issue_scenario(&s);
+                fill_salts(&[]);
+                l.evals += 2;
+                if let Ok(c) = third {
+                    let same = c.parts.disclosures == issued.parts.disclosures && payload_seg(&c.parts.jwt) == payload_seg(&issued.parts.jwt);
+                    if same {
+                        l.count("reissue.after-other-issuance.byte-identical");
+                    } else {
+                        l.violate(Violation {
+                            subcheck: "not-reproducible".into(),
+                            class: format!("{class}: after issuing the member-reversed claims in between"),
+                            observed: "same claims/strategy/salts gave different disclosures or payload after another issuance on the same thread".into(),
+                            case,
+                            detail: json!({"input": input(), "first": issued.sd_jwt, "third": c.sd_jwt}),
+                        });
+                    }
+                }
             } else {
                 l.violate(Violation {
                     subcheck: "not-reproducible".into(),
